@@ -40,13 +40,16 @@ pub fn judge_with(c: &Case, id: &str, make: &dyn Fn(&Prog, &RawCmd) -> Cmd) -> O
     let mut cmds: Vec<Cmd> = c.cmds.iter().map(|r| make(&p, r)).collect();
     cmds.push(Cmd::Exit);
     let aliases: Vec<u8> = c.cmds.iter().map(|r| r.alias).collect();
-    let model = run_model(&p, &cmds, &c.input, MODEL_BUDGET);
+    let mut model = run_model(&p, &cmds, &c.input, MODEL_BUDGET);
     if let Some(why) = model.ambiguous {
         obs.ambiguous = why.starts_with("step over");
         if !obs.ambiguous {
             obs.excluded = Some(why);
         }
         obs.label("history-cut-at-ambiguous-command");
+        if model.alt.is_some() {
+            obs.label("step-over-two-readings-either-accepted");
+        }
     }
     if model.dbg.io.out.iter().any(|o| *o == crate::refvm::Out::Ch(0x1b)) {
         obs.excluded = Some("program prints ESC (minimal mode strips escape sequences)");
@@ -114,23 +117,37 @@ pub fn judge_with(c: &Case, id: &str, make: &dyn Fn(&Prog, &RawCmd) -> Cmd) -> O
             return obs;
         }
     }
-    if !compare_states(&mut obs, id, &model, &cmds, out, &shown) {
-        return obs;
-    }
-    if let Some(fin) = &out.fin {
-        if let Some(d) = snap_diff(fin, &model.dbg.vm) {
-            obs.set_fail(format!("{id}:wrong-final-state"), format!("after the whole history: {d}\n{shown}"));
-            return obs;
+    // compare; where the last command is a step over a call with two readings, either is accepted
+    let attempt = |model: &ModelRun| -> Option<(String, String)> {
+        let mut o = Obs::default();
+        if !compare_states(&mut o, id, model, &cmds, out, &shown) {
+            return o.fail;
+        }
+        if let Some(fin) = &out.fin {
+            if let Some(d) = snap_diff(fin, &model.dbg.vm) {
+                return Some((format!("{id}:wrong-final-state"), format!("after the whole history: {d}\n{shown}")));
+            }
+        }
+        if out.execs != model.dbg.executed {
+            return Some((
+                format!("{id}:wrong-instruction-count"),
+                format!("lace executed {} instructions over the history, the reference {}\n{shown}", out.execs, model.dbg.executed),
+            ));
+        }
+        compare_output(&mut o, id, &model.dbg.io.out, out, &shown);
+        o.fail
+    };
+    let mut failure = attempt(&model);
+    if failure.is_some() && model.use_alternative() {
+        if attempt(&model).is_none() {
+            failure = None;
+        } else if let Some((sig, msg)) = failure.take() {
+            failure = Some((sig, format!("(neither reading of `step` over this call matches) {msg}")));
         }
     }
-    if out.execs != model.dbg.executed {
-        obs.set_fail(
-            format!("{id}:wrong-instruction-count"),
-            format!("lace executed {} instructions over the history, the reference {}\n{shown}", out.execs, model.dbg.executed),
-        );
-        return obs;
+    if let Some((sig, msg)) = failure {
+        obs.set_fail(sig, msg);
     }
-    compare_output(&mut obs, id, &model.dbg.io.out, out, &shown);
     obs
 }
 
@@ -166,7 +183,7 @@ impl Prop for C10 {
     }
     fn rule(&self) -> &'static str {
         "Histories of 1-12 mixed commands (step-heavy histories of 4-39 commands, and breakpoint-churn histories of 6-23 commands over a handful of addresses) over {step, step into k (k absent, 0, 1, 2, 3, 7, 100, 65535, small), step out, continue, break add/remove at code addresses / labels / PC offsets} on ProgGen programs and (1 in 6) arbitrary word images written as `.fill` lines (loops, nested and recursive subroutines in both conventions, HALT in the middle or at the end, both feature settings), each command followed by `registers`, ended by `exit`. \
-         Oracle: RefDbg on RefVM — after every command R0-R7, PC and CC; after the history the full snapshot (all memory), the number of executed instructions (hook H4) and the program output. `step` over a call whose two readings (first arrival at the following address / the call has returned) disagree cuts the history there (counted as ambiguous). \
+         Oracle: RefDbg on RefVM — after every command R0-R7, PC and CC; after the history the full snapshot (all memory), the number of executed instructions (hook H4) and the program output. `step` over a call whose two readings (first arrival at the following address / the call has returned) disagree ends the history there, and either reading's outcome is accepted (counted as ambiguous). \
          Non-trivial: >= 5 instructions executed in >= 2 resuming commands, including a step over a call, a step on a taken branch / JMP / RET, a step into that is cut short by a pause, or a step out. Distinct = hash(source, script, input)."
     }
     fn assumptions(&self) -> Vec<String> {
